@@ -413,6 +413,8 @@ bool provider(const std::string &prop, const std::string &tier, const std::strin
             { Spec s = base; s.holder = 'W'; s.ordered_arrival = true; s.scripts = {"B"}; s.late = {"B"}; s.stateful = st; add(suite, s, 2, flavour); }
             { Spec s = base; s.holder = 'R'; s.ordered_arrival = true; s.scripts = {"W", "B"}; s.late = {"B", "B"}; s.stateful = st; add(suite, s, thorough ? 2 : 1, flavour); }
             { Spec s = base; s.holder = 'R'; s.ordered_arrival = true; s.scripts = {"W", "B", "R"}; s.late = {"B"}; s.stateful = st; add(suite, s, thorough ? 2 : 1, flavour); }
+            // two read batches separated by a writer: the readers of the first batch depend on each other, a reader of the second batch must not take a place among them
+            { Spec s = base; s.holder = 'W'; s.ordered_arrival = true; s.scripts = {"B", "B", "W", "R"}; s.stateful = st; add(suite, s, 2, flavour); }
         }
         // "any number of readers": batches far beyond what can be enumerated, one schedule each (a limit hidden in the code - admit at most N at a time - shows up here)
         for (int k : {20, 40, 60}) { Spec s = base; s.rendezvous = k; s.single = true; add(suite, s, 0, flavour); }
